@@ -150,7 +150,7 @@ type admReq struct {
 	Method    string `json:"method"`
 	Transport string `json:"transport"` // value, "-" absent, "polling,bogus" repeated
 	Sid       string `json:"sid"`       // absent | unknown | known-same | known-other | closed
-	EIO       string `json:"eio"`       // 4 | 3 | - | garbage
+	EIO       string `json:"eio"`       // 4 | 3 | - | garbage | 5 | 04
 	OriginBad bool   `json:"origin_bad"`
 	Upgrade   bool   `json:"ws_upgrade_headers"`
 }
@@ -343,7 +343,9 @@ func runAdmission(r *rep.Report, c admCfg, reqs []admReq) {
 			qs = append(qs, "transport="+q.Transport)
 		}
 		switch q.EIO {
-		case "4", "3":
+		case "4", "3", "5", "04":
+			// "5" and "04" are numbers that are neither revision: the revision is 4 when the
+			// parameter is 4, otherwise 3
 			qs = append(qs, "EIO="+q.EIO)
 		case "garbage":
 			qs = append(qs, "EIO=9x")
@@ -671,6 +673,33 @@ func runOriginBytes(r *rep.Report) {
 	}
 }
 
+// nearBaseline: the request differs from a plain good handshake (GET, polling, no sid, EIO=4,
+// clean Origin, no upgrade headers) in at most two fields.  The quick tier runs all of these
+// under every configuration, next to its stride sample of the whole table, so that a change of
+// one check (or of the order of two) cannot fall between the sampled cells.
+func nearBaseline(q admReq) bool {
+	d := 0
+	if q.Method != "GET" {
+		d++
+	}
+	if q.Transport != "polling" {
+		d++
+	}
+	if q.Sid != "absent" {
+		d++
+	}
+	if q.EIO != "4" {
+		d++
+	}
+	if q.OriginBad {
+		d++
+	}
+	if q.Upgrade {
+		d++
+	}
+	return d <= 2
+}
+
 func TestC05(t *testing.T) {
 	r := rep.New(t, "C05")
 	defer r.Flush()
@@ -700,7 +729,7 @@ func TestC05(t *testing.T) {
 	for _, m := range []string{"GET", "POST", "PUT"} {
 		for _, tr := range []string{"polling", "websocket", "webtransport", "bogus", "-", "polling,bogus"} {
 			for _, sid := range []string{"absent", "unknown", "known-same", "known-other", "closed"} {
-				for _, eio := range []string{"4", "3", "-", "garbage"} {
+				for _, eio := range []string{"4", "3", "-", "garbage", "5", "04"} {
 					for _, ob := range []bool{false, true} {
 						for _, up := range []bool{false, true} {
 							if up && m != "GET" {
@@ -722,7 +751,7 @@ func TestC05(t *testing.T) {
 	for ci, c := range cfgs {
 		var mine []admReq
 		for _, q := range reqs {
-			if idx%stride == int(r.Seed)%stride && r.Mine(ci) {
+			if (idx%stride == int(r.Seed)%stride || nearBaseline(q)) && r.Mine(ci) {
 				mine = append(mine, q)
 			}
 			idx++
